@@ -74,7 +74,36 @@ def run_shard(prop, tier, seed, shard, nshards, out_path, only_case=None):
   if hasattr(mod, 'setup'):
     mod.setup()
 
+  case_limit = float(os.environ.get('VERIF_CASE_LIMIT_S',
+                                    plan.get('case_limit_s', 180)))
+  current = {'case': None, 't': time.monotonic()}
+
+  def watchdog():
+    # A case that never returns would stall the whole worker until the wall
+    # limit: report it (inconclusive, with the case) and leave.
+    import faulthandler
+    while True:
+      time.sleep(2)
+      if current['case'] is not None and (
+          time.monotonic() - current['t'] > case_limit):
+        res['notes'].append('case exceeded %ss: %s' % (
+            case_limit, json.dumps(current['case'], default=repr)[:600]))
+        res['counters']['harness_errors'] = res['counters'].get(
+            'harness_errors', 0) + 1
+        res['sigs'] = sorted(res['sigs'])
+        res['wall_s'] = time.monotonic() - t0
+        try:
+          faulthandler.dump_traceback(all_threads=True)
+          with open(out_path, 'w') as f:
+            json.dump(res, f, default=repr)
+        finally:
+          os._exit(0)
+
+  import threading
+  threading.Thread(target=watchdog, name='vf-watchdog', daemon=True).start()
+
   def one(case, kind):
+    current['case'], current['t'] = case, time.monotonic()
     try:
       r = mod.run_case(case)
     except Exception as e:  # harness failure, not a verdict on openhtf
@@ -84,6 +113,7 @@ def run_shard(prop, tier, seed, shard, nshards, out_path, only_case=None):
       res['counters']['harness_errors'] = res['counters'].get(
           'harness_errors', 0) + 1
       return
+    current['case'] = None
     res['evaluations'] += r.get('evaluations', 1)
     sig = r.get('sig')
     if sig is not None:
